@@ -191,7 +191,7 @@ func ruleInput(c *Ctx) {
 	// (LESS) no reachable block calls anything that reaches the record taker (NR and FNR untouched); for no
 	// redirection some reachable block does
 	vm := buildVMModel(c)
-	info := vm.pkg.TypesInfo
+	_ = vm.pkg.TypesInfo
 	{
 		ipkg := c.ssaPkg("interp")
 		reachTaker := map[*ssa.Function]bool{}
@@ -299,24 +299,48 @@ func ruleInput(c *Ctx) {
 		}
 		c.check(found, "sentinel:"+k.sentinel, token.NoPos, k.sentinel+" is compared in its catcher "+k.fn, k.sentinel+" is never compared in "+k.fn+": the control-flow sentinel would escape to the caller as an error")
 	}
-	// returnValue caught in the CallUser clause
-	if cc := vm.clauses["CallUser"]; cc != nil {
-		found := false
-		ast.Inspect(cc, func(m ast.Node) bool {
-			if ta, ok := m.(*ast.TypeAssertExpr); ok && ta.Type != nil && isIdent(ta.Type, "returnValue") {
-				found = true
-			}
-			// the same test written as a type switch
-			if cl, ok := m.(*ast.CaseClause); ok {
-				for _, e := range cl.List {
-					if tv, isT := info.Types[e]; isT && tv.IsType() && isIdent(e, "returnValue") {
-						found = true
+	// returnValue is recognised where a function body is run: the error result of the nested execute of a Function's
+	// Body (in execute's call handler or in a helper of it) reaches a type test for the return-value sentinel
+	{
+		nested := nestedFunctionExecutes(c)
+		if len(nested) == 0 {
+			c.undecided("sentinel:returnValue", token.NoPos, "no nested execute of a compiled function's body found")
+		}
+		for i, in := range nested {
+			found := false
+			if v, ok := in.(ssa.Value); ok {
+				seen := map[ssa.Value]bool{}
+				var follow func(v ssa.Value, d int)
+				follow = func(v ssa.Value, d int) {
+					if seen[v] || d > 6 || v.Referrers() == nil {
+						return
+					}
+					seen[v] = true
+					for _, r := range *v.Referrers() {
+						switch x := r.(type) {
+						case *ssa.TypeAssert:
+							if nm := named(x.AssertedType); nm != nil && nm.Obj().Name() == "returnValue" {
+								found = true
+							}
+						case *ssa.Phi:
+							follow(x, d+1)
+						case *ssa.ChangeInterface:
+							follow(x, d+1)
+						case *ssa.MakeInterface:
+							follow(x, d+1)
+						case *ssa.Extract:
+							follow(x, d+1)
+						}
 					}
 				}
+				follow(v, 0)
 			}
-			return true
-		})
-		c.check(found, "sentinel:returnValue", cc.Pos(), "the call handler recognises the return-value sentinel", "the call handler no longer recognises returnValue: a function's return would propagate as an error")
+			key := "sentinel:returnValue"
+			if i > 0 {
+				key = fmt.Sprintf("sentinel:returnValue#%d", i+1)
+			}
+			c.check(found, key, in.Pos(), "the call handler recognises the return-value sentinel", "the call handler no longer recognises returnValue: a function's return would propagate as an error")
+		}
 	}
 	// nextfile drops the scanner
 	if fd := c.funcDecl("interp", "interp.execActions"); fd != nil {
